@@ -154,7 +154,11 @@ def run(ctx):
             pl.append(gen_phases(rng, n))
     if ctx.replay is not None and ctx.replay.get("site") == "phases":
         pl = [[float.fromhex(x) for x in ctx.replay["case"]["phases"]]]
-    impl = run_impl([{"fn": "from_angles", "phases": [hexf(x) for x in ph]} for ph in pl])
+    int_pl = [[float(rng.choice([-9, -6, -4, 4, 5, 7, 19, 1, 0, 2])) for _ in range(n)] for n in ((1, 2, 3, 5, 8) if quick else range(1, 21))]
+    n_float = len(pl)
+    pl = pl + (int_pl if ctx.replay is None else [])
+    impl = run_impl([dict({"fn": "from_angles", "phases": [hexf(x) for x in ph]}, **({"as_int": ("list" if k % 2 else "array")} if k >= n_float else {}))
+                     for k, ph in enumerate(pl)])
     lines, keep = [], []
     for ph, r in zip(pl, impl):
         case = {"phases": [hexf(x) for x in ph]}
